@@ -97,7 +97,11 @@ def compare(model_out, real_out, exact_fields=()):
         if len(mf) != len(rf):
             return 'field %d length model=%d impl=%d' % (k, len(mf), len(rf))
         for i, (a, b) in enumerate(zip(mf, rf)):
-            if k in exact_fields:
+            if exact_fields == 'float-exact':
+                # decimal text round trip: the loaded double must be the double nearest to the
+                # model's decimal value
+                ok = float(a) == float(b)
+            elif k in exact_fields:
                 ok = (isinstance(b, Fr) and a == b) or (not isinstance(b, Fr) and math.isfinite(float(b)) and Fr(float(b)) == a)
             else:
                 ok = (a == b) if isinstance(b, Fr) else close(a, b)
